@@ -23,14 +23,15 @@ import (
 // receiver obtains exactly the submitted bytes, in order; when MsgSend returns nil (automatic flushing) every byte
 // of the message has been handed to Transport.Write, without any further call by the sender.
 func sizeSweep(c *vf.Ctx) {
-	type cfgT struct{ wb, split int }
-	cfgs := []cfgT{{0, 0}, {64, 16}, {4096, 1000}, {1, 0}, {300, 4096}}
+	// maxbuf = drpcstream.Options.MaximumBufferSize: messages of that size or more are not kept in the stream's scratch buffer
+	type cfgT struct{ wb, split, maxbuf int }
+	cfgs := []cfgT{{0, 0, 0}, {64, 16, 0}, {4096, 1000, 0}, {1, 0, 0}, {300, 4096, 0}, {64, 16, 40}, {0, 0, 5000}}
 	if !c.Quick() {
-		cfgs = append(cfgs, cfgT{128, 64}, cfgT{8192, 0}, cfgT{0, 16}, cfgT{4096, 4096})
+		cfgs = append(cfgs, cfgT{128, 64, 0}, cfgT{8192, 0, 0}, cfgT{0, 16, 0}, cfgT{4096, 4096, 0}, cfgT{4096, 1000, 1000}, cfgT{1, 0, 3})
 	}
 	n := 0
 	for _, cf := range cfgs {
-		wb, sp := cf.wb, cf.split
+		wb, sp, mb := cf.wb, cf.split, cf.maxbuf
 		effWB, effSP := wb, sp
 		if effWB == 0 {
 			effWB = 4096
@@ -56,6 +57,9 @@ func sizeSweep(c *vf.Ctx) {
 		around(effWB, step+45) // the frame header and the corked invoke shift the threshold by a few dozen bytes
 		around(2*effWB, 8)
 		around(effWB/2, 2)
+		if mb > 0 {
+			around(mb, 3)
+		}
 		for s := range sizes {
 			if s > 300000 {
 				delete(sizes, s)
@@ -63,7 +67,7 @@ func sizeSweep(c *vf.Ctx) {
 		}
 		for size := range sizes {
 			for _, first := range []bool{true, false} {
-				if !sizeCase(c, wb, sp, size, first) {
+				if !sizeCase(c, wb, sp, mb, size, first) {
 					return
 				}
 				n++
@@ -108,10 +112,10 @@ func pattern(size, seq int) []byte {
 	return b
 }
 
-func sizeCase(c *vf.Ctx, wb, sp, size int, first bool) bool {
+func sizeCase(c *vf.Ctx, wb, sp, mb, size int, first bool) bool {
 	cp, spipe := dir.NewGatedPair("cli", "srv")
 	cp.AutoW, cp.AutoR, spipe.AutoW, spipe.AutoR = true, true, true, true
-	mopts := drpcmanager.Options{WriterBufferSize: wb, Stream: drpcstream.Options{SplitSize: sp}}
+	mopts := drpcmanager.Options{WriterBufferSize: wb, Stream: drpcstream.Options{SplitSize: sp, MaximumBufferSize: mb}}
 	var msgs [][]byte
 	if !first {
 		msgs = append(msgs, pattern(10, 1))
@@ -132,10 +136,10 @@ func sizeCase(c *vf.Ctx, wb, sp, size int, first bool) bool {
 		}
 	}()
 	enc := &dir.GateEnc{}
-	key := fmt.Sprintf("size:%d:%d:%d:%v", wb, sp, size, first)
+	key := fmt.Sprintf("size:%d:%d:%d:%d:%v", wb, sp, mb, size, first)
 	c.Eval(key)
 	bad := func(what string, extra map[string]any) bool {
-		m := map[string]any{"writer_buffer": wb, "split": sp, "size": size, "first_message_of_stream": first}
+		m := map[string]any{"writer_buffer": wb, "split": sp, "maximum_buffer_size": mb, "size": size, "first_message_of_stream": first}
 		for k, v := range extra {
 			m[k] = v
 		}
